@@ -138,10 +138,11 @@ Theorem C06_fire_creates_none_while_pg_pending : forall w w' e wr t c rest,
 Proof. exact fire_creates_none_while_pg_pending. Qed.
 Print Assumptions C06_fire_creates_none_while_pg_pending.
 
-(* controller restart: whatever order the informers deliver pods, job and PodGroup in
-   (pods before the job included: the job cache keeps them in a placeholder and
-   cache.Add attaches the job to it), the controller ends up seeing exactly what the
-   API server holds *)
+(* controller restart: whatever order the informers deliver pods, job and PodGroup in, the controller ends
+   up seeing exactly what the API server holds.  This is a computation on the model's VIEW-COPY abstraction
+   (each delivery copies a whole view; the three copies commute); the job cache's placeholder logic for
+   pods delivered before their job is not represented in Coq: it is checked on the real cache by the
+   restart stream of the correspondence only (second audit, claim 2) *)
 Theorem C06_restart_any_delivery_order : forall w order,
   In order delivery_orders -> run w (ORestart :: order) = synced w.
 Proof. exact restart_any_delivery_order. Qed.
@@ -167,6 +168,26 @@ Theorem C06_crash_restart_world : forall w u F w1 e1 wr1 order,
   forall t i, find_pod t i (pass true (v_spec w2) (v_pods w2)) = find_pod t i (pass true (v_spec w) (w_pods w)).
 Proof. exact crash_restart_world. Qed.
 Print Assumptions C06_crash_restart_world.
+
+(* NOTE (second audit N1): the theorem above concludes about the pure function [pass] on the views the
+   restarted controller has, not about the retried syncJob; with a lister PodGroup ahead of the API
+   server's the retry does nothing (C06_nonvacuous_crash_restart_retry, second part).  The statement about
+   the RETRIED reconcile: if the API server's PodGroup is the admitted one the lister showed, and the job
+   there has a phase and no deletion timestamp, then after crash, restart and deliveries in any order a
+   sync that meets no fault succeeds and leaves exactly the pods of the undisturbed sync *)
+Theorem C06_crash_restart_retry : forall w u F w1 e1 wr1 order u' w3 e3 wr3,
+  sync_job w u F = (w1, e1, wr1) ->
+  c_vdel (v_ctl w) = false -> c_wdel (v_ctl w) = false -> c_queue (v_ctl w) = true ->
+  pg_admitted (v_pg w) = true -> w_pg w = v_pg w ->
+  st_phase (v_st w) <> PhNone -> st_phase (w_st w1) <> PhNone ->
+  v_pods w = w_pods w -> v_spec w = w_spec w ->
+  NoDup (map t_name (s_tasks (v_spec w))) -> NoDup (pod_ids (w_pods w)) ->
+  In order delivery_orders ->
+  sync_job (run w1 (ORestart :: order)) u' [] = (w3, e3, wr3) ->
+  e3 = false /\
+  forall t i, find_pod t i (w_pods w3) = find_pod t i (pass true (v_spec w) (w_pods w)).
+Proof. exact crash_restart_retry. Qed.
+Print Assumptions C06_crash_restart_retry.
 
 (* createOrUpdatePodGroup with a lister that shows what the API server holds: for EVERY
    fault position (the create / update call refused or not) "returned OK" implies that the
@@ -283,6 +304,17 @@ Theorem C06_law_minres_amount : forall sp xs got,
 Proof. exact law_minres_amount. Qed.
 Print Assumptions C06_law_minres_amount.
 
+(* the same from the law's own executable guard [well_formed] (replicas >= 0, 0 <= task minimum <= replicas,
+   0 <= minAvailable <= total replicas): the hypothesis of the amount theorems is what the guard checks *)
+Theorem C06_law_minres_amount_wf : forall sp xs got,
+  well_formed sp = true -> law_minres sp xs got = true ->
+  exists o, Permutation o (ptasks sp xs) /\ desc_prio o = true /\
+    got = if s_min sp <? total_min (ptasks sp xs) then rsum (greedy (map pt_replicas o) (s_min sp)) o
+          else let own := greedy (map own_min o) (s_min sp) in
+               radd (rsum own o) (rsum (greedy (map spare o) (s_min sp - zsum own)) o).
+Proof. exact law_minres_amount_wf. Qed.
+Print Assumptions C06_law_minres_amount_wf.
+
 (* law 205 MEANS the mirror clause *)
 Theorem C06_law_pg_sound : forall sp xs jp q g,
   law_pg sp xs jp q g = true ->
@@ -338,3 +370,16 @@ Example C06_nonvacuous_podgroup_ok :
   create_or_update_pg (Some g0) (Some g0) sp xs 2 true = (Some g0, true) /\
   pg_update g0 sp xs 2 <> g0.
 Proof. exact podgroup_ok_example. Qed.
+
+Example C06_nonvacuous_crash_restart_retry :
+  let st := mkStatus PhRunning 0 0 2 c0 0 [] false false in
+  let w := init_world ex_spec st ex_pods (Some PgRunning) in
+  let wbad := mkWorld ex_spec ex_spec st st ex_pods ex_pods (Some PgPending) (Some PgRunning) (init_ctl true) in
+  (exists w1 w3 wr3, sync_job w URunningSync [FCreate 1 0; FDelete 1 2] = (w1, true, false) /\
+     st_phase (w_st w1) <> PhNone /\
+     sync_job (run w1 [ORestart; OSyncPods; OSyncJob; OSyncPg]) URunningSync [] = (w3, false, wr3) /\
+     w_pods w3 = pass true ex_spec ex_pods) /\
+  (exists w1 w3 wr3, sync_job wbad URunningSync [FCreate 1 0; FDelete 1 2] = (w1, true, false) /\
+     sync_job (run w1 [ORestart; OSyncPods; OSyncJob; OSyncPg]) URunningSync [] = (w3, false, wr3) /\
+     w_pods w3 = w_pods w1 /\ w_pods w3 <> pass true ex_spec ex_pods).
+Proof. exact crash_restart_retry_example. Qed.
